@@ -107,6 +107,45 @@ Theorem c10_blocked_never_admitted : forall sites h,
 Proof. exact blocked_never_admitted_l. Qed.
 Print Assumptions c10_blocked_never_admitted.
 
+(* every multiaddr FORM of a blocked address: whatever /ip6zone prefix precedes
+   the IP component (a link-local remote /ip6zone/eth0/ip6/fe80::1/tcp/1) and
+   whatever follows it (tcp, quic-v1, ws, webtransport, a relay's
+   /p2p/<relay>/p2p-circuit), the address the gater decides on is that IP, so
+   in every reachable state a multiaddr carrying a blocked address — in either
+   byte form — or an address of a blocked subnet is refused by
+   InterceptAddrDial and InterceptAccept, is never handed to a transport and
+   is closed at accept, under every dial-context option *)
+Theorem c10_every_address_form_refused : forall sites h,
+  (forall g, has_gate sites g = true) -> Forall wf_event h ->
+  let m := g_mem (run init_state h) in
+  forall ma b, to_ip ma = Some b ->
+  ((exists a, model_has m (tid (RAddr a)) /\ norm_ip b = norm_ip a) \/
+   (exists s, wf_snet s /\ snet_key s <> None /\ wf_ip b /\ model_has m (tid (RSubnet s)) /\ contains s b = true)) ->
+  intercept_addr_dial m (to_ip ma) = false /\ intercept_accept m (to_ip ma) = false /\
+  (forall o p addrs j, nth_error addrs j = Some (to_ip ma) ->
+     ~ In (PvTransportDial j) (outbound_opt sites o m p addrs)) /\
+  (forall p, inbound sites m p (to_ip ma) = [PvAccept false; PvClosed]).
+Proof.
+  intros sites h Hg Hw m ma b E Hb.
+  destruct (blocked_never_admitted_l sites h Hg Hw) as (_ & HA & HS & _). fold m in HA, HS.
+  assert (Hok : mem_ok m) by (apply Inv_mem_ok, Inv_run; [exact Hw|apply Inv_init]).
+  assert (Hr : ip_refused m b = true).
+  { destruct Hb as [[a [H1 H2]]|[s (H1 & H2 & H3 & H4 & H5)]].
+    - eapply enforced_addr_refused; eassumption.
+    - eapply enforced_subnet_refused; eassumption. }
+  destruct (refused_every_form m ma b E Hr) as [R1 R2]. split; [exact R1|]. split; [exact R2|].
+  rewrite E. destruct Hb as [[a [H1 H2]]|[s (H1 & H2 & H3 & H4 & H5)]].
+  - destruct (HA a b H1 H2) as [X Y]. split; [exact X|exact Y].
+  - destruct (HS s b H1 H2 H3 H4 H5) as [X Y]. split; [exact X|exact Y].
+Qed.
+Print Assumptions c10_every_address_form_refused.
+
+(* ToIP finds the IP exactly in the forms: zone components, then the IP, then anything *)
+Theorem c10_to_ip_forms : forall a b, to_ip a = Some b ->
+  exists zs rest, a = zs ++ (match b with IP4 v => CIp4 v | IP16 v => CIp6 v end) :: rest /\ Forall (fun c => c = CZone) zs.
+Proof. exact to_ip_some. Qed.
+Print Assumptions c10_to_ip_forms.
+
 (* regenerated obligation: the Intercept* call sites found in the source this
    run.  The swarm (family 0) has InterceptPeerDial, InterceptAddrDial and
    InterceptUpgraded; each transport family — upgrader (TCP, WebSocket) 1,
